@@ -847,7 +847,10 @@ def oracle_C05_footprint(L, K, lines, steps, spec):
 
 
 def _grown(spec, sp, s):
-    return True if any(x["op"] == "reserve" for x in spec) else False
+    """clause (ii) speaks about a vector whose block was obtained for its capacity; a block kept
+    across reserve / assignment / swap is governed by clause (iii) (never more than before,
+    than the source, than a fresh vector) and may legitimately be larger than the contents"""
+    return any(x["op"] in ("reserve", "moveassign", "copyassign", "swap", "movector") for x in spec)
 
 
 def oracle_C10(L, K, lines, steps, spec):
